@@ -8,6 +8,7 @@ import (
 	"fmt"
 	"os"
 	"path/filepath"
+	"strings"
 	"sync"
 	"time"
 
@@ -62,7 +63,7 @@ func (w *blockingWriter) Write(p []byte) (int, error) {
 }
 
 func run(c *vf.Ctx) {
-	c.Rule("placement = (gate holder kind, hold duration D, offset of the Close call inside D, repetition) on a real single-node Store in its own process; holder 'backup' = binary Backup into a writer that blocks for D (holds the gate legitimately), 'snapshot' = user snapshot slowed by a hook sleep inside the gated section, 'none' = nobody. Measured: duration of Store.Close and the lag L between holder release and Close returning; after a Close that gave up at the wait limit a second Close is called at once and must not return nil before the holder has released the gate. non-trivial = the gate was observed held when Close was called; distinct by (holder, D, offset)")
+	c.Rule("placement = (gate holder kind, hold duration D, offset of the Close call inside D, repetition) on a real single-node Store in its own process; holder 'backup' = binary Backup into a writer that blocks for D (holds the gate legitimately), 'snapshot' = user snapshot slowed by a hook sleep inside the gated section, 'none' = nobody, 'startup-check' / 'startup-check-legacy' = the integrity check of a node restarted on a fingerprinted database file (fingerprint with and without checksum). Measured: duration of Store.Close and the lag L between holder release and Close returning; after a Close that gave up at the wait limit a second Close is called at once and must not return nil before the holder has released the gate. non-trivial = the gate was observed held when Close was called; distinct by (holder, D, offset)")
 	c.Assume("bounded-progress restatement with wide margins: L <= 1.5 s is prompt, L >= 5 s is late, in between inconclusive; when the holder keeps the gate for >= 12 s after the Close call, Close must fail between 8 s and 13.5 s after the call (9-12 s: inconclusive); wall-clock used only with these margins")
 	holds := []int{0, 20, 200, 1000, 3000, 7000, 15000}
 	if !c.Quick() {
@@ -72,6 +73,9 @@ func run(c *vf.Ctx) {
 	reps := c.N(1, 3)
 	for rep := 0; rep < reps; rep++ {
 		ps = append(ps, placement{Holder: "none", Rep: rep})
+		for _, o := range []int{0, 50} {
+			ps = append(ps, placement{Holder: "startup-check", CloseAtMs: o, Rep: rep}, placement{Holder: "startup-check-legacy", CloseAtMs: o, Rep: rep})
+		}
 		for _, h := range holds {
 			if h == 0 {
 				continue
@@ -144,6 +148,18 @@ func run(c *vf.Ctx) {
 			continue
 		}
 		switch {
+		case strings.HasPrefix(o.P.Holder, "startup-check"):
+			// the database is tiny: the integrity check holds the gate for
+			// milliseconds at most, so Close has to get through promptly
+			if o.CloseErr != "" {
+				c.Violation("close-failed:"+o.P.Holder, fmt.Sprintf("Close %d ms after a restart on a fingerprinted database failed although the start-up integrity check had (at most) milliseconds of work: %s", o.P.CloseAtMs, o.CloseErr), o)
+			} else if o.CloseMs >= 5000 {
+				c.Violation("close-slow:"+o.P.Holder, fmt.Sprintf("Close after a restart on a fingerprinted database took %.0f ms", o.CloseMs), o)
+			} else if o.CloseMs <= 1500 {
+				c.Held(1)
+			} else {
+				c.Inconclusive("startup-check close in the grey band")
+			}
 		case o.P.Holder == "none":
 			if o.CloseErr != "" {
 				c.Violation("close-failed:no-holder", "Close failed with nobody holding the gate: "+o.CloseErr, o)
@@ -202,6 +218,65 @@ func worker(args []string) {
 	r := cl.PostJSON(n, "/db/execute", []any{"CREATE TABLE t (id INTEGER PRIMARY KEY, v TEXT)", "INSERT INTO t(v) VALUES(hex(randomblob(20000)))"})
 	if r.Err != nil || r.Status != 200 {
 		o.SetupErr = fmt.Sprintf("seed write: %v %d", r.Err, r.Status)
+		return
+	}
+	if p.Holder == "startup-check" || p.Holder == "startup-check-legacy" {
+		// The gate holder is the integrity check a node runs when it starts on a
+		// database file with a valid fast-restart fingerprint. "legacy": the
+		// fingerprint carries no checksum (written by an older version), so there
+		// is nothing to verify and the gate must be free again at once.
+		if err := n.Store.Snapshot(0); err != nil {
+			o.SetupErr = "snapshot before restart: " + err.Error()
+			return
+		}
+		opts := n.Opts
+		opts.Dir, opts.RaftAddr = n.Dir, n.RaftAddr
+		n.Store.NoSnapshotOnClose = true
+		if err := n.Close(); err != nil {
+			o.SetupErr = "close before restart: " + err.Error()
+			return
+		}
+		fpPath := filepath.Join(n.Dir, "clean_snapshot")
+		fb, err := os.ReadFile(fpPath)
+		if err != nil {
+			o.SetupErr = "no fast-restart fingerprint after snapshot: " + err.Error()
+			return
+		}
+		if p.Holder == "startup-check-legacy" {
+			var m map[string]any
+			if json.Unmarshal(fb, &m) != nil {
+				o.SetupErr = "fingerprint is not JSON"
+				return
+			}
+			delete(m, "crc32")
+			nb, _ := json.MarshalIndent(m, "", "  ")
+			if err := os.WriteFile(fpPath, nb, 0644); err != nil {
+				o.SetupErr = err.Error()
+				return
+			}
+		}
+		var nn *hcluster.Node
+		for i := 0; i < 50; i++ {
+			if nn, err = hcluster.NewNode(cl.Net, opts); err == nil {
+				break
+			}
+			time.Sleep(100 * time.Millisecond)
+		}
+		if err != nil {
+			o.SetupErr = "reopen: " + err.Error()
+			return
+		}
+		if _, err := os.Stat(fpPath); err == nil {
+			o.GateHeldAtClose = true // the fast path was taken: the fingerprint survived Open
+		}
+		time.Sleep(time.Duration(p.CloseAtMs) * time.Millisecond)
+		nn.Service.Close()
+		t0 := time.Now()
+		err = nn.Store.Close(true)
+		o.CloseMs = float64(time.Since(t0).Microseconds()) / 1000
+		if err != nil {
+			o.CloseErr = err.Error()
+		}
 		return
 	}
 	hold := time.Duration(p.HoldMs) * time.Millisecond
